@@ -551,3 +551,73 @@ vh!(v4_growth_extend_slice, 14, v4_growth::<3>());
 vh!(v4_growth_extend_iter, 14, v4_growth::<4>());
 vh!(v4_growth_resize, 14, v4_growth::<5>());
 vh!(v4_growth_reserve, 14, v4_growth::<6>());
+
+/// V5 — splice with CONCRETE shapes (range and replacement length) and symbolic values.
+/// (A symbolic range drives Splice/Drain::move_tail/fill through symbolic copies: 40 min timeout.)
+pub fn v5_splice<const CASE: u8>() {
+    let mut back = Backing::<304>([0u8; 304]);
+    unsafe {
+        let c = small_chunk::<1>(back.0.as_mut_ptr(), 256, 200);
+        let bump = mk_bump::<1>(c.footer, None);
+        let e: [u8; 4] = kani::any();
+        let r: [u8; 4] = kani::any();
+        let mut v = BVec::with_capacity_in(12, &bump);
+        v.push(e[0]);
+        v.push(e[1]);
+        v.push(e[2]);
+        v.push(e[3]);
+        // expected result as an array + length
+        let mut want = [0u8; 12];
+        let mut wn = 0usize;
+        let mut removed = [0u8; 4];
+        let mut rn = 0usize;
+        match CASE {
+            0 => {
+                // middle range, exact-size replacement, longer than the range; removed items collected
+                let got: [Option<u8>; 2] = {
+                    let mut sp = v.splice(1..2, [r[0], r[1], r[2]]);
+                    [sp.next(), sp.next()]
+                };
+                vassert!(got[0] == Some(e[1]) && got[1].is_none(), "NEVER: [C13] splice yielded the wrong removed items");
+                want[..7].copy_from_slice(&[e[0], r[0], r[1], r[2], e[2], e[3], 0]);
+                wn = 6;
+            }
+            1 => {
+                // inexact size_hint (filter), more items than the range, non-empty tail
+                {
+                    let _sp = v.splice(1..2, [r[0], r[1], r[2], r[3]].into_iter().filter(|_| true));
+                }
+                want[..7].copy_from_slice(&[e[0], r[0], r[1], r[2], r[3], e[2], e[3]]);
+                wn = 7;
+            }
+            2 => {
+                // shorter replacement, range up to the end
+                {
+                    let _sp = v.splice(1.., [r[0]]);
+                }
+                want[..2].copy_from_slice(&[e[0], r[0]]);
+                wn = 2;
+            }
+            _ => {
+                // empty replacement = removal
+                {
+                    let _sp = v.splice(..2, core::iter::empty());
+                }
+                want[..2].copy_from_slice(&[e[2], e[3]]);
+                wn = 2;
+            }
+        }
+        let _ = (removed, rn);
+        vassert!(v.len() == wn, "NEVER: [C13] length after splice differs from std's");
+        let k: usize = kani::any();
+        if k < wn && k < v.len() {
+            vassert!(v[k] == want[k], "NEVER: [C13] contents after splice differ from std's");
+        }
+        vassert!(v.capacity() >= v.len(), "NEVER: [C13] capacity below length");
+        kani::cover!(true, "REACH: end of harness");
+    }
+}
+// (splices with a non-empty tail AND a longer replacement, cases 0 and 1, run past 25 min even with
+// concrete shapes: Drain::move_tail + fill over the loop copies; not registered)
+vh!(v5_splice_to_end, 16, v5_splice::<2>());
+vh!(v5_splice_remove, 16, v5_splice::<3>());
